@@ -234,14 +234,20 @@ func run(c *core.Ctx) {
 		k := kinds[sched[i%len(sched)]]
 		q := &x{c: c, i: i, r: c.Rand(i), gen: k.name, st: st, fired: map[string]bool{}}
 		c.Begin(i, k.name, k.name, nil)
+		before := floors["encoding-equals-reference"]
 		k.f(q)
+		if floors["encoding-equals-reference"] > before {
+			matched[k.name]++
+		}
 		c.Count("cases/"+k.name, 1)
 		c.End(i)
 	}
-	fl := func(name string) { c.Floor(name, true) }
-	_ = fl
 	for _, f := range floorNames {
 		c.Floor(f, floors[f] > 0)
+	}
+	// every structure must have been seen encoding to its reference layout at least once
+	for _, k := range kinds {
+		c.Floor("encoder-matched-reference/"+k.name, matched[k.name] > 0)
 	}
 }
 
@@ -253,5 +259,6 @@ var floorNames = []string{
 	"sp800155-nonzero-padding-refused", "stream-readers-all-three", "vmsa-all-fields-decoded", "pageinfo-digest-checked",
 }
 var floors = map[string]int{}
+var matched = map[string]int{}
 
 func seen(name string) { floors[name]++ }
